@@ -31,6 +31,16 @@ mod gossip;
 mod live;
 mod state;
 
+/// Verification hooks (cargo feature `verif`): access to the live actor and its coordination state.
+#[cfg(feature = "verif")]
+#[allow(missing_docs)]
+pub mod verif {
+    pub use super::{
+        live::{LiveActor, ToLiveActor},
+        state::{NamespaceStates, Origin, SyncReason},
+    };
+}
+
 /// Capacity of the channel for the [`ToLiveActor`] messages.
 const ACTOR_CHANNEL_CAP: usize = 64;
 /// Capacity for the channels for [`Engine::subscribe`].
